@@ -669,7 +669,8 @@ pub fn main(args: &Args) -> ! {
         }
     }
     // ---- scrape
-    let limits: Vec<u8> = vec![0, 1, 2, 69, 70, 71, 254, 255];
+    // thorough: every limit a u8 can hold
+    let limits: Vec<u8> = if thorough { (0..=255).collect() } else { vec![0, 1, 2, 69, 70, 71, 254, 255] };
     // up to 420 hashes: more than a u8 can count and more than fit the tracker's 8192-byte receive buffer (408)
     for n in 0..=420usize {
         let hashes: Vec<[u8; 20]> = (0..n).map(|i| core::array::from_fn(|j| (i as u8).wrapping_mul(7).wrapping_add(j as u8).wrapping_add((i >> 8) as u8))).collect();
@@ -684,7 +685,7 @@ pub fn main(args: &Args) -> ! {
         }
         // ragged lists at every length, against every limit (a list cut to the limit before its length is checked
         // would hide the ragged tail): 1 and 19 surplus bytes everywhere, every surplus 1..=19 near the boundaries
-        let extras: Vec<usize> = if n <= 3 || (69..=72).contains(&n) || (254..=257).contains(&n) { (1..20).collect() } else { vec![1, 19] };
+        let extras: Vec<usize> = if thorough || n <= 3 || (69..=72).contains(&n) || (254..=257).contains(&n) { (1..20).collect() } else { vec![1, 19] };
         for extra in extras {
             let mut x = b.clone();
             x.extend(std::iter::repeat(0xab).take(extra));
